@@ -213,6 +213,8 @@ impl Region {
             }
             // Drop layout before set_min_len (needs mmap_mut — would deadlock).
             drop(layout);
+            #[cfg(kani)]
+            anydb_verif_platform::pause::pause(1);
 
             if let Err(e) = db.set_min_len(target_len) {
                 let mut meta = self.meta_mut();
@@ -242,6 +244,8 @@ impl Region {
             meta.set_reserved(new_reserved);
             drop(meta);
             drop(layout);
+            #[cfg(kani)]
+            anydb_verif_platform::pause::pause(2);
 
             db.write(write_start, data);
 
@@ -266,6 +270,8 @@ impl Region {
             layout.remove_or_compress_hole(hole_start, new_reserved)?;
             layout.reserve(hole_start, new_reserved);
             drop(layout);
+            #[cfg(kani)]
+            anydb_verif_platform::pause::pause(3);
             hole_start
         } else {
             let new_start = layout.len();
@@ -281,6 +287,8 @@ impl Region {
             layout.reserve(new_start, new_reserved);
             // Drop layout before set_min_len (needs mmap_mut — would deadlock).
             drop(layout);
+            #[cfg(kani)]
+            anydb_verif_platform::pause::pause(4);
 
             if let Err(e) = db.set_min_len(target_len) {
                 let mut layout = db.layout_mut();
@@ -292,6 +300,8 @@ impl Region {
 
         db.copy(start, new_start, copy_len)?;
         db.write(new_start + write_offset, data);
+        #[cfg(kani)]
+        anydb_verif_platform::pause::pause(5);
 
         trace!(
             "{}: '{}' write_with re-acquiring layout_mut (after relocation)",
